@@ -11,6 +11,7 @@ use std::panic;
 use std::rc::Rc;
 
 mod sem;
+mod types;
 
 fn atom_of(kind: &str, idx: u64) -> Atom {
     match kind {
@@ -99,6 +100,7 @@ fn run(job: &Value) -> Value {
         }
         "to_dnf" => dnf_json(&bdd_to_dnf(&bdd_of(&job["a"]))),
         "from_dnf" => bdd_json(&dnf_to_bdd(&dnf_of(&job["d"]))),
+        _ if op.starts_with("ty_") => types::run(op, job),
         _ => sem::run(op, job),
     }
 }
